@@ -50,7 +50,10 @@ func pickSignatureAlgorithm(pubkey crypto.PublicKey, peerSigAlgs, ourSigAlgs []S
 		case *ecdsa.PublicKey:
 			return ECDSAWithSHA1, signatureECDSA, crypto.SHA1, nil
 		case *sm2.PublicKey:
-			return SM2WITHSM3, signatureSM2, crypto.SHA1, nil
+			// The verifier sees this key as an *ecdsa.PublicKey on the SM2 curve (that is what
+			// x509.ParseCertificate returns) and takes the case above: sign what it will verify,
+			// as in TLS 1.2, where both types end in signatureECDSA.
+			return ECDSAWithSHA1, signatureECDSA, crypto.SHA1, nil
 		default:
 			return 0, 0, 0, fmt.Errorf("tls: unsupported public key: %T", pubkey)
 		}
